@@ -756,6 +756,35 @@ class DiagramRule(FileRule, BaseModuleSpecifier, RuleApplier):
         MultipleRuleApplier(rules).assert_applies(evaluable)
 """})
 
+variant("conv-get-none-walrus", {DCV: CONV_HEAD + """
+class DependencyToRuleConverter:
+    def __init__(self, should_only_rule: bool) -> None:
+        self._should_only_rule = should_only_rule
+
+    def convert(self, dependencies: ParsedDependencies) -> list[RuleApplier]:
+        return self._convert_should_rules(dependencies) + self._convert_should_not_rules(dependencies)
+
+    def _convert_should_rules(self, dependencies: ParsedDependencies) -> list[RuleApplier]:
+        def rule(importer, importees):
+            subject = Rule().modules_that().are_named(importer)
+            if self._should_only_rule:
+                return subject.should_only().import_modules_that().are_named(list(importees))
+            return subject.should().import_modules_that().are_named(list(importees))
+        return [rule(k, dependencies.dependencies[k]) for k in dependencies.dependencies.keys()]
+
+    @classmethod
+    def _convert_should_not_rules(cls, parsed_dependencies: ParsedDependencies) -> list[RuleApplier]:
+        rules = []
+        for m in sorted(parsed_dependencies.all_modules):
+            forbidden = set(parsed_dependencies.all_modules)
+            forbidden.discard(m)
+            if (drawn := parsed_dependencies.dependencies.get(m)) is not None:
+                forbidden.difference_update(drawn)
+            if len(forbidden) >= 1:
+                rules.append(Rule().modules_that().are_named(m).should_not().import_modules_that().are_named(sorted(forbidden)))
+        return rules
+"""})
+
 def main() -> int:
     here = Path(__file__).resolve().parents[1]
     sys.path.insert(0, str(here))
